@@ -12,18 +12,18 @@ git checkout -q -- go.mod go.sum 2>/dev/null || true
 echo "== worktree status"; git status --short
 # fresh scratch worktree from the same commit to verify patch applies cleanly
 base=$(git rev-parse HEAD)
-rm -rf /tmp/seedchk; git -C /repo worktree add -q --detach /tmp/seedchk $base
-cd /tmp/seedchk
+rm -rf /tmp/seedchk.$id; git -C /repo worktree add -q --detach /tmp/seedchk.$id $base
+cd /tmp/seedchk.$id
 git apply $out/patch.diff
 cp $out/*_test.go $pkg/
 echo "== with change: suite (demo skipped)"
 go build ./... && go test -vet=off -count=1 -skip "^${demo}\$" ./... 2>&1 | grep -v "no test files" | tail -8
 echo "== with change: demo must FAIL"
-if go test -vet=off -count=1 -run "^${demo}\$" ./$pkg/ > /tmp/seedchk.log 2>&1; then echo "DEMO PASSED WITH CHANGE (bad)"; else echo "demo fails as expected"; tail -5 /tmp/seedchk.log | cut -c1-300; fi
+if go test -vet=off -count=1 -run "^${demo}\$" ./$pkg/ > /tmp/seedchk.$id.log 2>&1; then echo "DEMO PASSED WITH CHANGE (bad)"; else echo "demo fails as expected"; tail -5 /tmp/seedchk.$id.log | cut -c1-300; fi
 git apply -R $out/patch.diff
 echo "== without change: demo must PASS"
 go test -vet=off -count=1 -run "^${demo}\$" ./$pkg/ 2>&1 | tail -3
-cd /; git -C /repo worktree remove --force /tmp/seedchk
+cd /; git -C /repo worktree remove --force /tmp/seedchk.$id
 mkdir -p /verif/seeded/$name
 cp $out/patch.diff $out/meta.json $out/*_test.go /verif/seeded/$name/
 echo "stored in /verif/seeded/$name"
